@@ -164,11 +164,15 @@ def build_offgrid(rng):
     193.1 THz, with edges on either side of that anchor frequency."""
     ej = G.eqpt_json()
     names = []
+    # all models of one network share some band (amplifiers without any common band on one line are not a line system)
+    low = rng.random() < 0.5
     for k in range(rng.randint(2, 4)):
-        lo = G.pick(rng, [191.2775e12, 191.31e12, 191.3031e12, 192.4019e12, 193.1031e12, 193.3044e12, 191.275e12])
-        hi = G.pick(rng, [196.0535e12, 195.9977e12, 196.1219e12, 194.0519e12, 193.0519e12, 192.9981e12, 196.125e12])
-        if hi - lo < 0.6e12:
-            continue
+        if low:
+            lo = G.pick(rng, [191.2775e12, 191.31e12, 191.3031e12, 191.275e12])
+            hi = G.pick(rng, [196.0535e12, 194.0519e12, 193.0519e12, 192.9981e12, 196.125e12])
+        else:
+            lo = G.pick(rng, [192.4019e12, 193.1031e12, 193.3044e12, 191.275e12])
+            hi = G.pick(rng, [196.0535e12, 195.9977e12, 196.1219e12, 196.125e12])
         names.append(f'vf_offgrid_{k}')
         ej['Edfa'].append({'type_variety': names[-1], 'type_def': 'variable_gain', 'f_min': lo, 'f_max': hi,
                            'gain_flatmax': 26, 'gain_min': 15, 'p_max': 23, 'nf_min': 6, 'nf_max': 10,
